@@ -35,7 +35,7 @@ def run(ctx):
     ctx.check_coverage(r, T.ALL_ACTIONS)
     # 2. behaviours: one history per distinct abstract state of the generation configuration
     g = ctx.tlc_must_pass('TSMEngine', gen_cfg, timeout=sc * (100 if quick else 900), dump=True)
-    hs, stats = T.histories(ctx, g.dump_path, want=140 if quick else 9000, budget_s=20 if quick else 420,
+    hs, stats = T.histories(ctx, g.dump_path, want=250 if quick else 6000, budget_s=20 if quick else 420,
                             exact_leaves=not quick)
     T.require_actions(stats, T.ALL_ACTIONS)
     consts = T.cfg_constants(gen_cfg)
@@ -45,6 +45,16 @@ def run(ctx):
     binary = ctx.go_build('engine')
     res, lines = ctx.replay(binary, cases, par=1, timeout=sc * (150 if quick else 1500), case_timeout='90s')
     ctx.absorb(res, lines)
+    if not quick:
+        # half-applied writes (CacheWrite ; WriteAck under Engine.mu.RLock, parked at write.afterCacheWrite)
+        sp = ctx.tlc_must_pass('TSMEngine', 'TSMEngine.MC_C01_split.cfg', timeout=sc * 600, dump=True, coverage=True)
+        ctx.check_coverage(sp, ['CacheWrite', 'WriteAck', 'SnapBegin', 'SnapReplace', 'CompactMerge', 'Reopen'])
+        shs, sstats = T.histories(ctx, sp.dump_path, want=1500, budget_s=200, exact_leaves=True)
+        sc_consts = T.cfg_constants('TSMEngine.MC_C01_split.cfg')
+        scases = T.make_cases('C01', shs, T.set_size(sc_consts['Keys']), T.set_size(sc_consts['Times']), lambda i: [i])
+        sres, slines = ctx.replay(binary, scases, par=1, timeout=sc * 900, case_timeout='90s')
+        ctx.absorb(sres, slines)
+        ctx.extra_cov['split_writes'] = {'generation': sstats, 'cases_replayed': len(scases)}
     ctx.exhaustive = bool(stats.get('exact_leaves')) and stats.get('selected') == stats.get('leaves')
     ctx.extra_cov['generation'] = stats
     ctx.extra_cov['cases_replayed'] = len(cases)
